@@ -21,6 +21,7 @@ def _wrap_moves(net, algo, getter):
     """record, at every value selection after the initial one, the neighbour values the
     computation was looking at (``getter(comp)`` -> dict name -> value)"""
     net.moves = []
+    net.moves_cycle = []
     for name, c in net.comps.items():
         orig = c._on_value_selection
 
@@ -30,7 +31,9 @@ def _wrap_moves(net, algo, getter):
                 view = dict(getter(_c))
             except Exception:  # noqa
                 view = None
-            net.moves.append((_n, val, view, len([e for e in net.value_events if e[0] == _n])))
+            nth = len([e for e in net.value_events if e[0] == _n])
+            net.moves.append((_n, val, view, nth))
+            net.moves_cycle.append((_n, val, view, nth, getattr(_c, "cycle_count", 0)))
             _o(val, cost, cycle)
         c._on_value_selection = on_vs
 
@@ -65,6 +68,18 @@ def h_dsa(env):
     ap = dict(p.get("algo_params", {}))
     ap["stop_cycle"] = k
     net = Net(env, "dsa", mode, variables, cons, ap)
+    if p.get("fixed_initial"):
+        # initial values fixed to the first domain value instead of explored (keeps the 3-cycle shapes small)
+        import pydcop.infrastructure.computations as IC
+        rm = IC.random
+
+        class _First:
+            def __getattr__(self, a):
+                return getattr(rm, a)
+
+            def choice(self, seq):
+                return list(seq)[0]
+        IC.random = _First()
     _wrap_moves(net, "dsa", lambda c: c.current_cycle)
     order = list(net.comps)
     if p.get("start_order") == "rev":
@@ -91,6 +106,25 @@ def h_dsa(env):
               detail=lambda: {n: net.comps[n].cycle_count for n in names})
     env.prove("dsa.C07.nothing-posted-after-finishing", _nothing_after_finish(net), detail=lambda: net.log[-10:])
     _check_moves(env, "dsa", net, mode, variables, tabs, varcost)
+    # ground truth: the j-th value message on channel m -> n is m's value for cycle j; the j-th evaluation of n
+    # must be a best response to exactly those values (whatever n believes it received)
+    chan = {}
+    for ev in net.log:
+        if ev[0] == "post" and hasattr(ev[3], "value"):
+            chan.setdefault((ev[1], ev[2]), []).append(ev[3].value)
+    for n, val, view, nth, cyc in net.moves_cycle:
+        if nth == 0 or val is None or is_sym(val):
+            continue
+        nbrs = list(net.comps[n].neighbors)
+        if not all(len(chan.get((m, n), [])) > cyc for m in nbrs):
+            continue
+        asg = {m: chan[(m, n)][cyc] for m in nbrs}
+        asg[n] = val
+        for m in names:
+            asg.setdefault(m, variables[m].domain[0])
+        env.prove("dsa.C06.moves-only-to-a-best-response-to-the-neighbours-values-of-that-cycle",
+                  _is_argopt(mode, n, val, asg, variables, tabs, varcost),
+                  detail=lambda: dict(variable=n, cycle=cyc, new_value=val, true_neighbour_values={m: chan[(m, n)][cyc] for m in nbrs}, believed=view))
 
 
 def _nothing_after_finish(net):
@@ -115,6 +149,9 @@ def _shapes_dsa(tier, prop=None):
         dict(spec="double_pair", stop_cycle=2, modes=["min"], algo_params=dict(variant="C", **P1)),
         dict(spec="tri_nary", stop_cycle=1, modes=["min"], algo_params=dict(p_mode="arity", variant="A")),
         dict(spec="pair2", stop_cycle=2, modes=["max"], algo_params=dict(variant="B", **P1), start_order="rev", policy="lifo", interleave_start=True),
+        # one neighbour runs a cycle ahead of the other (legal FIFO overtaking)
+        dict(spec="chain3", stop_cycle=3, modes=["min"], algo_params=dict(variant="A", **P1), policy="favor:x1", fixed_initial=True),
+        dict(spec="chain3", stop_cycle=3, modes=["min"], algo_params=dict(variant="C", **P1), policy="starve:x3", fixed_initial=True),
     ]
     if prop == "C10" and tier == "quick":
         return [q[1], q[3], q[6]]
